@@ -7,6 +7,7 @@
    Nothing here is proved; it is extracted to OCaml and run by the harness. *)
 From Coq Require Import List Arith NArith Bool.
 From MR Require Import Lib.Bytes Lib.Val Model.Index Model.Dag Model.Git Model.Tracking Model.CfgFile Model.Sched Model.Plan.
+From MR Require Model.Lock Model.Reader.
 Import ListNotations.
 Open Scope nat_scope.
 
@@ -469,6 +470,43 @@ Definition check_plan (v : val) : val :=
   let ok := forallb fst answers in
   VL [eB true; VL (map snd answers); eB ok; eB ok].
 
+
+(* ---------- C14: the lock ---------- *)
+(* input: n processes, choices [(kind, pid, n_effects)], observed refused pids, observed effect-performing pids *)
+Definition check_lock (v : val) : val :=
+  let n := dnat (dNth v 0) in
+  let cs := map (fun e => match dnat (dNth e 0) with
+                          | 0 => Lock.Start (dnat (dNth e 1)) (dnat (dNth e 2))
+                          | 1 => Lock.Act (dnat (dNth e 1))
+                          | _ => Lock.Kill (dnat (dNth e 1)) end) (dL (dNth v 1)) in
+  let s := fold_left (fun '(s, refused) c =>
+             let s' := Lock.step s c in
+             (s', match c with Lock.Start p _ => match Lock.pget s' p with Lock.Refused => p :: refused | _ => refused end | _ => refused end))
+             cs (Lock.init n, []) in
+  let m_refused := nset_of (snd s) in
+  let m_acted := nset_of (Lock.effects (fst s)) in
+  let agree := nset_eqb m_refused (dNats (dNth v 2)) && nset_eqb m_acted (dNats (dNth v 3)) in
+  VL [eB true; VL [eNats m_refused; eNats m_acted]; eB agree; eB agree].
+
+
+(* ---------- C08 / C15 / C20: one reader ---------- *)
+(* input: events [(kind, bytes)] kind 0 Arrive 1 Close 2 Poll 3 Tick; stream attached; sink fails from write n
+   (option); impl stored bytes; impl streamed bytes (option) *)
+Definition check_reader (v : val) : val :=
+  let es := map (fun e => match dnat (dNth e 0) with
+                          | 0 => Reader.Arrive (dStr (dNth e 1)) | 1 => Reader.Close | 2 => Reader.Poll | _ => Reader.Tick end)
+                (dL (dNth v 0)) in
+  let attached := dB (dNth v 1) in
+  let fail_from := dOpt dnat (dNth v 2) in
+  let sink (n : nat) : bool := match fail_from with Some k => n <? k | None => true end in
+  let s := Reader.run true true sink attached es in
+  let stored_ok := str_eqb (Reader.out s) (dStr (dNth v 3)) in
+  let streamed_ok := match dOpt dStr (dNth v 4) with
+                     | Some b => str_eqb (concat (Reader.sent s)) b
+                     | None => true end in
+  let arrived_ok := str_eqb (Reader.arrived es) (dStr (dNth v 3)) in
+  VL [eB (Reader.ended s); VL [eStr (Reader.out s); eB (Reader.failed s)]; eB (stored_ok && streamed_ok && negb (Reader.failed s)); eB arrived_ok].
+
 (* ---------- dispatch ---------- *)
 From Coq Require Import String.
 Open Scope string_scope.
@@ -485,4 +523,6 @@ Definition dispatch (name : str) (v : val) : val :=
   else if str_eqb name (bs "cfgfile") then check_cfgfile v
   else if str_eqb name (bs "sched") then check_sched v
   else if str_eqb name (bs "plan") then check_plan v
+  else if str_eqb name (bs "lock") then check_lock v
+  else if str_eqb name (bs "reader") then check_reader v
   else VL [].
